@@ -43,6 +43,8 @@ def apply_patch(root: str, patch_path: str) -> None:
     subprocess.run(["git", "init", "-q"], cwd=root, check=True, capture_output=True)
     r = subprocess.run(["git", "apply", "--whitespace=nowarn", patch_path], cwd=root, capture_output=True, text=True)
     if r.returncode != 0:
+        r = subprocess.run(["git", "apply", "--whitespace=nowarn", "-C1", patch_path], cwd=root, capture_output=True, text=True)
+    if r.returncode != 0:
         raise RuntimeError(f"patch does not apply: {r.stderr[:300]}")
 
 
@@ -187,7 +189,7 @@ def load_mutants() -> list[dict]:
             patch = os.path.join(seeded, d, "patch.diff")
             if os.path.exists(meta) and os.path.exists(patch):
                 m = json.load(open(meta))
-                if m.get("caught_by"):
+                if m.get("caught_by") and m.get("applies_to_current_tree", True):
                     out.append({"name": f"seeded/{d}", "property": m["property"], "patch": patch, "expect": "violation",
                                 "checks": m["caught_by"]})
     return out
